@@ -1099,6 +1099,51 @@ func c13gTemplates() []c13gCase {
 		c13gAddEdge(&c4, 0, "Places", 2)
 		out = append(out, c4)
 	}
+	// records WITH a primary key repeated inside one collected record list: the identityMap filter must keep one
+	for _, op := range []string{"create", "save", "updates-full", "create-full"} {
+		key := 0
+		if op == "updates-full" {
+			key = 100
+		}
+		for _, rel := range []string{"Peers", "Subs", "Places"} {
+			tt := "node"
+			if rel == "Places" {
+				tt = "place"
+			}
+			c := c13gCase{Family: "dup-existing", Op: op, Roots: []int{0}, Nodes: []c13gNode{{T: "node", Key: key}, {T: tt, Key: 7}, {T: tt}}}
+			c13gAddEdge(&c, 0, rel, 1)
+			c13gAddEdge(&c, 0, rel, 2)
+			c13gAddEdge(&c, 0, rel, 1)
+			out = append(out, c)
+		}
+		// two members of a nested batch share an existing belongs-to record
+		for _, bt := range []string{"Boss", "Mentor"} {
+			c := c13gCase{Family: "batch-shared-existing", Op: op, Roots: []int{0}, Nodes: []c13gNode{{T: "node", Key: key}, {T: "node"}, {T: "node"}, {T: "node", Key: 9}}}
+			c13gAddEdge(&c, 0, "Subs", 1)
+			c13gAddEdge(&c, 0, "Subs", 2)
+			c13gAddEdge(&c, 1, bt, 3)
+			c13gAddEdge(&c, 2, bt, 3)
+			out = append(out, c)
+		}
+		c := c13gCase{Family: "batch-shared-existing", Op: op, Roots: []int{0}, Nodes: []c13gNode{{T: "node", Key: key}, {T: "node"}, {T: "node"}, {T: "place", Key: 9}}}
+		c13gAddEdge(&c, 0, "Peers", 1)
+		c13gAddEdge(&c, 0, "Peers", 2)
+		c13gAddEdge(&c, 1, "Home", 3)
+		c13gAddEdge(&c, 2, "Home", 3)
+		c13gAddEdge(&c, 1, "Places", 3)
+		out = append(out, c)
+	}
+	for _, bt := range []string{"Boss", "Mentor", "Home"} {
+		tt := "node"
+		if bt == "Home" {
+			tt = "place"
+		}
+		c := c13gCase{Family: "batch-shared-existing", Op: "createslice", Roots: []int{0, 1, 2}, Nodes: []c13gNode{{T: "node"}, {T: "node"}, {T: "node"}, {T: tt, Key: 9}, {T: tt}}}
+		c13gAddEdge(&c, 0, bt, 3)
+		c13gAddEdge(&c, 1, bt, 4)
+		c13gAddEdge(&c, 2, bt, 3)
+		out = append(out, c)
+	}
 	// Association().Append
 	for _, rel := range []string{"Peers", "Subs"} {
 		c := c13gCase{Family: "append", Op: "append", Roots: []int{0}, Nodes: mk(4), AppendRel: rel, AppendVals: []int{2, 3}}
@@ -1181,7 +1226,7 @@ func c13gSuite(r *Result, rng *rand.Rand, tier string) {
 	logger.Default = logger.Discard
 	defer func() { logger.Default = old }()
 
-	nrand, maxN := 260, 6
+	nrand, maxN := 500, 6
 	if tier == "thorough" {
 		nrand, maxN = 6000, 9
 	} else if tier == "search" {
